@@ -229,6 +229,20 @@ def make_case(rng):
         stream = b"".join(parts) + suffix
         kind = "big_single_call"
         cand = rng.choice(CAND_KINDS)
+    elif r < 0.64:
+        # a reader is selected, then the line carries tens of KiB without any message (the meter is silent, something else talks),
+        # then messages of the *other* kind, then the selected reader's own again: the selection stands
+        first_kind = rng.choice(("hdlc", "p1"))
+        own = (resync.hdlc_suffix(rng, cfg, 2, 40)[0] if first_kind == "hdlc" else resync.p1_suffix(rng, 2)[0])
+        other = (resync.p1_suffix(rng, 2)[0] if first_kind == "hdlc" else resync.hdlc_suffix(rng, cfg, 2, 40)[0])
+        n_silence = rng.choice((20000, 66000, 70000, 140000))
+        if first_kind == "p1":
+            silence = bytes(rng.choice(b"abcdefghijklmnopqrstuvwxyz0123456789 \r\n") for _ in range(2000)) * (n_silence // 2000)
+        else:
+            silence = b"\x7e\xa0\x7e" + bytes(rng.choice(b"\x00\x01\x55\xaa\x10") for _ in range(2000)) * (n_silence // 2000)
+        stream = own + silence + other + own
+        kind = "long_silence_after_selection"
+        cand = rng.choice(("HP", "PH"))
     elif r < 0.75:
         stream, _ = c01mod.make_stream(rng, cfg)
         kind = "corrupt_hdlc"
